@@ -32,15 +32,21 @@ BodyPool ==
    If(CallS(2, <<V("p")>>)),
    [k |-> "next"], [k |-> "exit"], [k |-> "fault"],
    Set("loc2", [k |-> "match", subj |-> V("p"), bind |-> "m", body |-> V("m")]),
+   \* an expression-bodied match left abnormally: its body calls a function that executes next / returns from a loop
+   Set("loc2", [k |-> "match", subj |-> V("p"), bind |-> "m", body |-> Call(4, <<>>)]),
+   Set("loc2", [k |-> "match", subj |-> V("p"), bind |-> "m", body |-> Call(5, <<V("m")>>)]),
    Show("m"), Show("loc"), Show("g")}
 
-Args == CASE ArgSets = "few" -> {<<>>, <<V("a")>>, <<V("a"), N(4), N(5)>>}
-          [] OTHER -> {<<>>, <<V("a")>>, <<V("a"), N(4)>>, <<V("a"), N(4), N(5)>>, <<N(2)>>}
+MN == [k |-> "membnull"]    \* gobj.k, a member the global object does not have: passed as null, by value
+Args == CASE ArgSets = "few" -> {<<>>, <<V("a")>>, <<V("a"), N(4), N(5)>>, <<MN>>}
+          [] OTHER -> {<<>>, <<V("a")>>, <<V("a"), N(4)>>, <<V("a"), N(4), N(5)>>, <<N(2)>>, <<MN>>, <<V("a"), MN>>}
 Pars == CASE ParamSets = "few" -> {<<"p">>, <<"p", "q">>}
           [] OTHER -> {<<>>, <<"p">>, <<"p", "q">>}
 
 Fn2 == [params |-> <<"p">>, body |-> Block(<<Show("p"), If(Set("x2", Call(1, <<V("p")>>))), Ret(N(4))>>)]
-Chk == [params |-> <<>>, body |-> Block(<<Show("a"), Show("r"), Show("g"), Show("p"), Show("q"),
+Fn4 == [params |-> <<>>, body |-> Block(<<[k |-> "next"]>>)]
+Fn5 == [params |-> <<"w">>, body |-> Block(<<[k |-> "forin", kind |-> "arr", n |-> 2, two |-> FALSE, b |-> Ret(V("w"))], Ret(N(0))>>)]
+Chk == [params |-> <<>>, body |-> Block(<<[k |-> "showg"], Show("a"), Show("r"), Show("g"), Show("p"), Show("q"),
                                           Show("loc"), Show("loc2"), Show("m"), Show("r2"), Show("x2")>>)]
 
 Main(args) == Block(<<Set("g", N(1)), Set("a", N(3)), Set("r", Call(1, args)), CallS(3, <<>>)>>)
@@ -59,7 +65,7 @@ Build ==
   /\ ~built /\ built' = TRUE
   /\ \E rest \in Bodies(BodyLen - 1) :
        LET body == Block(<<first>> \o rest)
-           p == [fns |-> <<[params |-> pars, body |-> body], Fn2, Chk>>,
+           p == [fns |-> <<[params |-> pars, body |-> body], Fn2, Chk, Fn4, Fn5>>,
                  rules |-> << [kind |-> "P", body |-> Main(args)], [kind |-> "E", body |-> [k |-> "print"]] >>,
                  n |-> 2]
        IN /\ prog' = p
